@@ -199,6 +199,8 @@ var c15Params = []string{
 	`{"-":4,"o":"x"}`, `[4,"x",9]`,
 	`["n",{"I":7}]`, `["n",{"I":7,"bogus":true}]`, `{"name":"n","in":{"I":7,"bogus":true}}`, `{"name":"n","in":{"I":7}}`, `["n",{"I":7},3]`,
 	// a request that is refused after part of it has been decoded, then one that omits those parts
+	// strings whose content looks like structure (escaped backslash before the closing quote, quotes, brackets, commas)
+	`[1,"C:\\"]`, `[1,"a\"b"]`, `[1,"],["]`, `[1,"\\\""]`, `{"A":1,"b":"C:\\"}`,
 	`{"A":9,"b":5}`, `{"b":"only"}`, `[8,[]]`, `{}`, `{"x":7,"why":"no"}`, `{"why":[4]}`, `{"k":3,"j":"no"}`, `{"j":1}`, `[{"A":1},{"A":"no"}]`, `[{"b":"z"}]`,
 }
 
@@ -478,6 +480,12 @@ func TestC16(t *testing.T) {
 		kinds[9]:  {`9007199254740993`, `null`, `{"a":[1.0,2e0]}`, `"z"`},
 		kinds[10]: {`"low"`, `null`, `"high"`, `"medium"`},
 	}
+	// well-typed values whose text looks like structure: an escaped backslash before the closing
+	// quote, quotes, brackets and commas inside strings
+	tricky := map[reflect.Type][]string{
+		kinds[1]: {`"C:\\"`, `"q\"],["`, `"a,b"`, `"\\\""`, `"\\\\"`},
+		kinds[9]: {`"\\"`, `["\\",{"k":"\"}"}]`, `{"a\\":"]"}`},
+	}
 	var pl, pimpl []string
 	var pin []any
 	for n := 0; n <= 6; n++ {
@@ -561,6 +569,8 @@ func TestC16(t *testing.T) {
 					s := sample[tt]
 					if bad && i == k-1 {
 						es = append(es, s[len(s)-1])
+					} else if tk := tricky[tt]; len(tk) > 0 && rng.Intn(3) == 0 {
+						es = append(es, tk[rng.Intn(len(tk))])
 					} else {
 						es = append(es, s[rng.Intn(2)])
 					}
